@@ -11,6 +11,7 @@ from .stack import (CaptureLL, make_router, set_ego, gn_addr, pack, lpv_fields, 
 PROP = "C02"
 COQ_TARGETS = ["Properties/C02", "Extract/ExC02"]
 MODEL_ML = "c02_model.ml"
+GENS = ["gen_c02"]
 MODEL_NAME = "c02"
 TRUSTED_BASE = [
     "Coq 8.16.1 kernel (coqc); vm_compute only in the width-table side conditions (Forall / mod 8) ; no native_compute",
@@ -498,7 +499,7 @@ def packet_cases(ctx, n_ego, payload_lens):
                         sn = (sn + 1) % 65535
                         ll.sent.clear()
                         call("geo", reqinp, btp.btp_data_request, BTPDataRequest(
-                            gn_packet_transport_type=PacketTransportType(HeaderType(ht), HST(hst)),
+                            gn_packet_transport_type=PacketTransportType(stack.header_type_by_name(ht), stack.shape_hst_by_name(ht, hst)),
                             gn_area=Area(latitude=area[0], longitude=area[1], a=a, b=b, angle=angle), **base))
                         ref = pack(basic_fields(1, 1, ltc, x) + common_fields(btp_type, ht, hst, tcb, int(mobile), len(gn_payload), x)
                                    + [(16, sn), (16, 0)] + lpv_fields(me, *ego_view[3:])
